@@ -164,6 +164,35 @@ def _bytes(tok):
     return b"" if tok in ("-", "") else bytes.fromhex(tok)
 
 
+class Canon:
+    """Canonical form of a reference value, computed only when something has to be compared with it."""
+    __slots__ = ("e", "v", "_c")
+
+    def __init__(self, e, v):
+        self.e, self.v, self._c = e, v, None
+
+    def c(self):
+        if self._c is None:
+            self._c = (G.canon_value(self.e, self.v),)
+        return self._c[0]
+
+    def __eq__(self, other):
+        return self.c() == (other.c() if isinstance(other, Canon) else other)
+
+    def __ne__(self, other):
+        return not self.__eq__(other)
+
+    def __hash__(self):
+        return hash(self.c())
+
+    def __repr__(self):
+        return repr(self.c())
+
+
+def unwrap(x):
+    return x.c() if isinstance(x, Canon) else x
+
+
 def parse_answer(op, expr, ans):
     """Answer line -> comparable outcome tuple."""
     if ans is None:
@@ -203,22 +232,33 @@ def parse_answer(op, expr, ans):
     return ("garbled", ans[:100])
 
 
-def ref_outcome(op, expr, arg):
-    """What the independent reference says (the oracle)."""
+def ref_outcome(op, expr, arg, with_text=False):
+    """What the independent reference says (the oracle); with_text: also the canonical answer lines (native, Python)."""
+    def hx(b):
+        return b.hex() or "-"
     try:
         if op == "ser":
-            return ("ser", R.ser(expr, arg))
-        if op == "serbuf":
-            return ("ser", R.serbuf(expr, arg[0], arg[1]))
-        if op == "de":
-            v, c = R.de(expr, arg)
-            return ("de", G.canon_value(expr, v), c)
-        if op == "rt":
             b = R.ser(expr, arg)
-            return ("rt", b, (G.canon_value(expr, R.adj(expr, arg)), len(b), b))
+            out, txt = ("ser", b), ("ok " + hx(b),) * 2
+        elif op == "serbuf":
+            b = R.serbuf(expr, arg[0], arg[1])
+            out, txt = ("ser", b), ("ok " + hx(b),) * 2
+        elif op == "de":
+            v, c = R.de(expr, arg)
+            out = ("de", Canon(expr, v), c)
+            vs = G.fmt_value(expr, v, decoded=True) if with_text else ""
+            txt = (f"ok {vs} {c}", f"ok {vs} ?")
+        elif op == "rt":
+            b = R.ser(expr, arg)
+            a = R.adj(expr, arg)
+            out = ("rt", b, (Canon(expr, a), len(b), b))
+            vs = G.fmt_value(expr, a, decoded=True) if with_text else ""
+            txt = (f"ok {hx(b)} {vs} {len(b)} {hx(b)}", f"ok {hx(b)} {vs} ? {hx(b)}")
+        else:
+            raise ValueError(op)
     except R.CodecError as ex:
-        return ("err", ex.kind)
-    raise ValueError(op)
+        out, txt = ("err", ex.kind), ("err:" + ex.kind,) * 2
+    return (out, txt) if with_text else out
 
 
 def _canon_decode(expr, data):
@@ -322,7 +362,7 @@ def signature(expr, want, got, kind):
         top = expr[2] if expr[0] == "d" else expr
         va = vb = None
         if want[0] == "de" and got[0] == "de":
-            va, vb = want[1], got[1]
+            va, vb = unwrap(want[1]), unwrap(got[1])
         elif want[0] == "ser" and got[0] == "ser":
             da, db = _canon_decode(expr, want[1]), _canon_decode(expr, got[1])
             if da[0] == "err" or db[0] == "err":
@@ -334,7 +374,7 @@ def signature(expr, want, got, kind):
             if want[1] != got[1]:
                 return signature(expr, ("ser", want[1]), ("ser", got[1]), kind)
             if not isinstance(got[2][0], str) and want[2][0] != got[2][0]:
-                va, vb = want[2][0], got[2][0]
+                va, vb = unwrap(want[2][0]), unwrap(got[2][0])
             elif isinstance(got[2][2], bytes) and got[2][2] != want[2][2]:
                 return signature(expr, ("ser", want[2][2]), ("ser", got[2][2]), kind)
         if va is not None:
@@ -377,7 +417,9 @@ class Req:
         return self.arg[0] if self.op == "serbuf" else self.arg
 
 
-def lean_outcomes(drv, reqs):
+def lean_outcomes(drv, reqs, want=None, texts=None):
+    """Answers of the Lean driver as outcomes.  want/texts: reference outcomes and their canonical lines (fast path:
+    an answer that is textually the canonical line needs no parsing)."""
     lines, spans = [], []
     for r in reqs:
         ml = r.model_lines()
@@ -385,10 +427,13 @@ def lean_outcomes(drv, reqs):
         lines += ml
     ans = drv.ask(lines, timeout=1800)
     out = []
-    for r, (a, n) in zip(reqs, spans):
+    for i, (r, (a, n)) in enumerate(zip(reqs, spans)):
         e = r.gt.expr
         if r.op != "rt":
-            out.append(parse_answer(r.op, e, ans[a]))
+            if texts is not None and ans[a] == texts[i][0]:
+                out.append(want[i])
+            else:
+                out.append(parse_answer(r.op, e, ans[a]))
             continue
         s = parse_answer("ser", e, ans[a])
         if s[0] != "ser":
@@ -445,8 +490,15 @@ def run_requests(ctx, sess, drv, stream, reqs, tally, targets=None, cross_target
     if not reqs:
         return {}
     targets = sess.targets if targets is None else targets
-    want_ref = [ref_outcome(r.op, r.gt.expr, r.arg) for r in reqs]
-    want_lean = lean_outcomes(drv, reqs) if drv is not None else None
+    secs = ctx.extra.setdefault("seconds", {})
+    t0 = time.time()
+    both = [ref_outcome(r.op, r.gt.expr, r.arg, with_text=True) for r in reqs]
+    want_ref = [b[0] for b in both]
+    texts = [b[1] for b in both]
+    secs["reference"] = round(secs.get("reference", 0) + time.time() - t0, 2)
+    t0 = time.time()
+    want_lean = lean_outcomes(drv, reqs, want_ref, texts) if drv is not None else None
+    secs["lean_driver"] = round(secs.get("lean_driver", 0) + time.time() - t0, 2)
     nans = [G.has_nan(r.gt.expr, r.value()) if r.op != "de" else False for r in reqs]
     # Lean vs reference: two independent readings of the same rules
     if want_lean is not None:
@@ -462,20 +514,43 @@ def run_requests(ctx, sess, drv, stream, reqs, tally, targets=None, cross_target
         ctx.count("origin:" + r.origin)
     lines = [r.target_line() for r in reqs]
     answers = {}
+    def timed_ask(t):
+        t1 = time.time()
+        a = t.ask(lines)
+        secs["ask:" + t.name] = round(secs.get("ask:" + t.name, 0) + time.time() - t1, 2)
+        return a
+    t0 = time.time()
     with concurrent.futures.ThreadPoolExecutor(max_workers=max(1, len(targets))) as ex:
-        futs = {t.name: ex.submit(t.ask, lines) for t in targets}
+        futs = {t.name: ex.submit(timed_ask, t) for t in targets}
         for t in targets:
             answers[t.name] = futs[t.name].result()
+    secs["targets_wall"] = round(secs.get("targets_wall", 0) + time.time() - t0, 2)
+    t0 = time.time()
     outcomes = {}
+    slow = set()        # requests on which at least one target did not give the canonical answer (or n/a)
     for t in targets:
         outs = outcomes[t.name] = []
         for i, r in enumerate(reqs):
             e = r.gt.expr
-            got = parse_answer(r.op, e, answers[t.name][i])
+            ans = answers[t.name][i]
+            if ans == texts[i][0] or ans == texts[i][1]:
+                # textually the canonical answer of the reference: nothing to parse
+                outs.append(want_ref[i])
+                ctx.count(f"answers:{t.name}")
+                if want_lean is not None:
+                    ctx.traces += 1
+                    if want_lean[i] is not want_ref[i] and same_outcome(e, want_lean[i], want_ref[i], nans[i]) is not None:
+                        ctx.count("lean-vs-impl-differences")
+                        if len(ctx.disagreements) < 200:
+                            ctx.disagree(stream, {"type": r.gt.tstr, "op": r.op, "arg": r.text[:2000], "target": t.name},
+                                         str(want_lean[i])[:1500], ans[:1500])
+                continue
+            got = parse_answer(r.op, e, ans)
             outs.append(got)
             if got[0] == "na":
                 ctx.count(f"n/a:{t.lang}")
                 continue
+            slow.add(i)
             ctx.count(f"answers:{t.name}")
             if want_lean is not None:
                 ctx.traces += 1
@@ -494,9 +569,13 @@ def run_requests(ctx, sess, drv, stream, reqs, tally, targets=None, cross_target
                            lambda r=r, t=t, i=i: {"type": f"{r.gt.full_name}.{r.gt.version[0]}.{r.gt.version[1]}", "expr": r.gt.tstr, "op": r.op,
                                                    "arg": r.text, "target": t.name, "options": t.options, "where": sig, "files": deps_texts(sess.ns, r.gt),
                                                    "expected": fmt_outcome(want_ref[i]), "got": answers[t.name][i][:4000]})
+    secs["compare"] = round(secs.get("compare", 0) + time.time() - t0, 2)
     if cross_target:
         names = [t.name for t in targets]
         for i, r in enumerate(reqs):
+            if i not in slow:       # every target printed the canonical answer: they agree
+                ctx.count("cross-target-comparisons")
+                continue
             seen, generic_err = {}, []
             for n in names:
                 o = outcomes[n][i]
@@ -530,6 +609,8 @@ def fmt_outcome(o):
     def conv(x):
         if isinstance(x, bytes):
             return x.hex() or "-"
+        if isinstance(x, Canon):
+            return conv(x.c())
         if isinstance(x, tuple):
             return [conv(y) for y in x]
         return x
@@ -598,8 +679,12 @@ def report_build(ctx, sess, tally):
 
 
 def common_setup(ctx, prop):
+    t0 = time.time()
     drv = prove(ctx, prop)
+    ctx.extra.setdefault("seconds", {})["prove"] = round(time.time() - t0, 2)
+    t0 = time.time()
     sess = get_session(ctx)
+    ctx.extra["seconds"]["session"] = round(time.time() - t0, 2)
     tally = Tally(ctx)
     report_build(ctx, sess, tally)
     ctx.assumptions = ["the compilers (gcc/g++/clang), CPython, NumPy and PyDSDL's front end are trusted",
